@@ -21,12 +21,13 @@ Qed.
 Print Assumptions C12_not_infix_form.
 
 (* operands that would otherwise be re-grouped are parenthesised: a conditional under any operator, an infix expression
-   under a prefix or postfix operator, a postfix under a postfix *)
+   under a prefix or postfix operator, a prefix expression under a postfix operator (postfix chains need none) *)
 Theorem C12_parenthesised_operands : forall tbl op c a b x o2,
   str_eqb op s_not = false ->
   expr tbl (AUnary op (ATernary c a b)) = op ++ sp ++ c_lparen :: expr tbl (ATernary c a b) ++ [c_rparen] /\
   expr tbl (APostfix (ABinary o2 a b) op) = (c_lparen :: expr tbl (ABinary o2 a b) ++ [c_rparen]) ++ sp ++ op /\
-  expr tbl (APostfix (APostfix x o2) op) = (c_lparen :: expr tbl (APostfix x o2) ++ [c_rparen]) ++ sp ++ op /\
+  expr tbl (APostfix (APostfix x o2) op) = expr tbl (APostfix x o2) ++ sp ++ op /\
+  expr tbl (APostfix (AUnary o2 x) op) = (c_lparen :: expr tbl (AUnary o2 x) ++ [c_rparen]) ++ sp ++ op /\
   expr tbl (ATernary (ATernary c a b) a b) = (c_lparen :: expr tbl (ATernary c a b) ++ [c_rparen]) ++ sp ++ s_qmark ++ sp ++ expr tbl a ++ sp ++ s_colon ++ sp ++ expr tbl b.
 Proof. intros. repeat split; reflexivity. Qed.
 Print Assumptions C12_parenthesised_operands.
